@@ -86,7 +86,7 @@ JAbs   == [st |-> "absent", n |-> 0]
 NoRec  == [ty |-> "none", rid |-> 0, wid |-> 0, pdo |-> "none", tr |-> "na", hc |-> "na", ok |-> FALSE, len |-> 0]
 Torn   == [NoRec EXCEPT !.len = 1]
 Junk(n) == [NoRec EXCEPT !.len = n]
-NoAp   == [before |-> 0, after |-> 0, k |-> 0, bef |-> <<>>, btail |-> FALSE, cls |-> "none"]
+NoAp   == [before |-> 0, after |-> 0, k |-> 0, bef |-> <<>>, btail |-> FALSE, cls |-> "none", cbef |-> <<>>, cin |-> FALSE]
 NoFault == [cls |-> "none", before |-> <<>>, after |-> <<>>, j |-> JAbs]
 
 View(f)  == IF tail[f] THEN Append(disk[f], Torn) ELSE disk[f]
@@ -283,22 +283,28 @@ AWrite(fl) == /\ pc = "a_write" /\ Goto("a_write")
               /\ tail' = [tail EXCEPT ![cur] = @ \/ fl]
               /\ UNCHANGED <<disk, jr, cdx, ex, cdxEx, ap>>
 \* close: everything flushed (gzip trailer included): the member is complete
-AClose == /\ pc = "a_write" /\ Goto("j_remove")
+\* The CDX line belongs to the append: it is written while the journal still exists, and an error there takes the
+\* record back as well (the line itself too).
+WithLine == par.cdx /\ rec.ty = "response"
+\* (the constructor writes the warcinfo record of the first file BEFORE it sets up the CDX index)
+CdxReady == par.cdx /\ ~\E i \in 1..Len(todo) : todo[i][1] = "cdxinit"
+AClose == /\ pc = "a_write" /\ Goto(IF CdxReady THEN "a_getsize2" ELSE "j_remove")
           /\ disk' = [disk EXCEPT ![cur] = Append(@, rec)] /\ tail' = [tail EXCEPT ![cur] = FALSE]
           /\ UNCHANGED <<jr, cdx, ex, cdxEx, ap>>
-JRemove == /\ pc = "j_remove" /\ Goto("a_getsize2")
-           /\ jr' = [jr EXCEPT ![cur] = JAbs] /\ UNCHANGED <<disk, tail, cdx, ex, cdxEx, ap>>
-AGetsize2 == /\ pc = "a_getsize2"
-             /\ Goto(IF par.cdx /\ rec.ty = "response" THEN "c_open" ELSE "a_done")
+AGetsize2 == /\ pc = "a_getsize2" /\ Goto("c_getsize")
              /\ ap' = [ap EXCEPT !.after = Size(View(cur))] /\ UNCHANGED fsvars
+CGetsize == /\ pc = "c_getsize" /\ Goto(IF WithLine THEN "c_open" ELSE "j_remove")    \* (only response records get a line)
+            /\ ap' = [ap EXCEPT !.cbef = cdx, !.cin = TRUE] /\ UNCHANGED fsvars
 
 CdxHdrOK(hc) == CASE fix.cdx = 0 -> hc = "empty" [] fix.cdx = 1 -> hc # "over4k" [] OTHER -> TRUE
 Line == [rid |-> rec.rid, f |-> cur, off |-> ap.before, len |-> ap.after - ap.before, hdr |-> CdxHdrOK(rec.hc)]
 
 COpen  == pc = "c_open" /\ Goto("c_w") /\ UNCHANGED <<fsvars, ap>>
 CWrite == pc = "c_w" /\ Goto("c_w") /\ UNCHANGED <<fsvars, ap>>
-CClose == /\ pc = "c_w" /\ Goto("a_done") /\ cdx' = Append(cdx, Line)
+CClose == /\ pc = "c_w" /\ Goto("j_remove") /\ cdx' = Append(cdx, Line)
           /\ UNCHANGED <<disk, tail, jr, ex, cdxEx, ap>>
+JRemove == /\ pc = "j_remove" /\ Goto("a_done")
+           /\ jr' = [jr EXCEPT ![cur] = JAbs] /\ UNCHANGED <<disk, tail, cdx, ex, cdxEx, ap>>
 
 ADone == /\ pc = "a_done" /\ pc' = "idle" /\ todo' = Tail(todo)
          /\ UNCHANGED <<par, fix, fsvars, recvars, rec, ap, nextRid, budvars, obsvars>>
@@ -331,6 +337,15 @@ ErrAClose == /\ pc = "a_write" /\ Fail("r_open", "archive")                     
              /\ disk' = [disk EXCEPT ![cur] = Append(@, rec)] /\ tail' = [tail EXCEPT ![cur] = FALSE]
              /\ UNCHANGED <<jr, cdx, ex, cdxEx>>
 
+\* errors while the CDX line is written: same except clause
+ErrCOpen  == pc = "c_open" /\ Fail("r_open", "cdx") /\ UNCHANGED fsvars
+ErrCWrite == pc = "c_w" /\ Fail("c_fclose", "cdx") /\ UNCHANGED fsvars           \* with-block closes the file
+CFClose(fl) == /\ pc = "c_fclose" /\ Goto("r_open")
+               /\ cdx' = IF fl THEN Append(cdx, [Line EXCEPT !.rid = 0]) ELSE cdx   \* part of the line may be on disk
+               /\ UNCHANGED <<disk, tail, jr, ex, cdxEx, ap>>
+ErrCClose == /\ pc = "c_w" /\ Fail("r_open", "cdx")                              \* error reported by close()
+             /\ cdx' = Append(cdx, Line) /\ UNCHANGED <<disk, tail, jr, ex, cdxEx>>
+
 \* open(self._warc_filename, mode='wb')  -  'wb' TRUNCATES the archive
 ROpen  == /\ pc = "r_open" /\ Goto("r_trunc") /\ ex' = ex \cup {cur}
           /\ IF fix.rollback THEN UNCHANGED <<disk, tail>>
@@ -343,7 +358,12 @@ RTrunc == /\ pc = "r_trunc" /\ Goto("r_close")
              ELSE /\ disk' = [disk EXCEPT ![cur] = IF ap.before > 0 THEN <<Junk(ap.before)>> ELSE <<>>]
                   /\ tail' = [tail EXCEPT ![cur] = FALSE]
           /\ UNCHANGED <<jr, cdx, ex, cdxEx, ap>>
-RClose == pc = "r_close" /\ Goto("j_fremove") /\ UNCHANGED <<fsvars, ap>>
+RClose == pc = "r_close" /\ Goto(IF ap.cin THEN "rc_open" ELSE "j_fremove") /\ UNCHANGED <<fsvars, ap>>
+\* the CDX index is cut back to its length before the line
+RCOpen  == pc = "rc_open" /\ Goto("rc_trunc") /\ UNCHANGED <<fsvars, ap>>
+RCTrunc == /\ pc = "rc_trunc" /\ Goto("rc_close") /\ cdx' = ap.cbef
+           /\ UNCHANGED <<disk, tail, jr, ex, cdxEx, ap>>
+RCClose == pc = "rc_close" /\ Goto("j_fremove") /\ UNCHANGED <<fsvars, ap>>
 JFRemove == /\ pc = "j_fremove" /\ Goto("raise")
             /\ jr' = [jr EXCEPT ![cur] = JAbs] /\ UNCHANGED <<disk, tail, cdx, ex, cdxEx, ap>>
 
@@ -375,8 +395,9 @@ SysNext ==
   \/ Flush \/ Move \/ SessEnd \/ Closed
   \/ DoAppend
   \/ AExists \/ AGetsize \/ JOpen \/ JWrite \/ JClose \/ AOpen \/ (\E fl \in BOOLEAN : AWrite(fl)) \/ AClose
-  \/ JRemove \/ AGetsize2 \/ COpen \/ CWrite \/ CClose \/ ADone
-  \/ JFClose \/ (\E fl \in BOOLEAN : AFClose(fl)) \/ ROpen \/ RTrunc \/ RClose \/ JFRemove \/ Raise
+  \/ JRemove \/ AGetsize2 \/ CGetsize \/ COpen \/ CWrite \/ CClose \/ ADone
+  \/ JFClose \/ (\E fl \in BOOLEAN : AFClose(fl)) \/ (\E fl \in BOOLEAN : CFClose(fl))
+  \/ ROpen \/ RTrunc \/ RClose \/ RCOpen \/ RCTrunc \/ RCClose \/ JFRemove \/ Raise
 
 EnvNext ==
   \/ (\E a \in BOOLEAN : Startup(a))
@@ -384,6 +405,7 @@ EnvNext ==
   \/ (\E s \in Shapes, b \in Bodies, k2 \in Kinds, s2 \in Shapes, b2 \in Bodies : SessionOvl(s, b, k2, s2, b2))
   \/ Close
   \/ ErrJOpen \/ ErrJWrite \/ ErrJClose \/ ErrAOpen \/ ErrAWrite \/ ErrAClose \/ ErrJRemove
+  \/ ErrCOpen \/ ErrCWrite \/ ErrCClose
   \/ Crash
 
 Next == SysNext \/ EnvNext
@@ -419,7 +441,7 @@ Dev15 == ~fix.rollback
 DevJ  == ~fix.journal
 Dev14 == ~fix.offset
 AsIsCrashOK      == InvCrashOK \/ (Dev15 /\ faults > 0)
-AsIsFaultContent == InvFaultContent \/ (Dev15 /\ lastFault.cls = "archive")
+AsIsFaultContent == InvFaultContent \/ (Dev15 /\ lastFault.cls \in {"archive", "cdx"})
 AsIsFaultJournal == InvFaultJournal \/ (DevJ /\ lastFault.cls = "journal")
 AsIsPayloadRange == (Quiet /\ Clean) =>
                       \A f \in Files : \A i \in 1..Len(View(f)) :
@@ -429,7 +451,7 @@ AsIsCdxHeader    == CdxQuiet => \A j \in 1..Len(cdx) : cdx[j].hdr \/ fix.cdx < 2
 
 TypeOK ==
   /\ pc \in {"off", "idle", "a_exists", "a_getsize", "j_open", "j_w", "a_open", "a_write", "j_remove", "a_getsize2",
-             "c_open", "c_w", "a_done", "c_hdr", "j_fclose", "a_fclose", "r_open", "r_trunc", "r_close", "j_fremove",
+             "c_getsize", "c_open", "c_w", "c_fclose", "rc_open", "rc_trunc", "rc_close", "a_done", "c_hdr", "j_fclose", "a_fclose", "r_open", "r_trunc", "r_close", "j_fremove",
              "raise"}
   /\ seq \in 0..MaxSeq /\ cur \in Files /\ faults \in 0..MaxFault /\ crashes \in 0..MaxCrash
   /\ \A f \in Files : jr[f].st \in {"absent", "empty", "bad", "offset"}
